@@ -8,9 +8,14 @@ from gen import charset as G
 def main():
     chk = common.Check('C20')
     import charset_common as C
-    proved = chk.prove('I18n.Props.C20', generated=('charset', 'charsetcns'))
-    problems = ' '.join(chk.lean.problems)
-    driver_ok = os.path.exists(common.driver_path()) and not any('untranslatable' in s for s in chk.lean.translation.values()) \
+    proved = chk.prove('I18n.Props.C20', generated=('charset', 'charsetcns', 'iconv', 'encodings', 'ling'), extra_targets=())
+    # the tie by translation (first part): lib/iconv.py regenerated from the current source and proved equal to the loop model (Props/C20Tie.lean)
+    tie_ok = common.prove_tie(chk, 'I18n.Props.C20Tie', ('iconv', 'encodings', 'ling'),
+                              '_decode_dl / _encode_dl / decode / encode regenerated from the current lib/iconv.py, or the constants and functions regenerated '
+                              'from the current lib/encodings.py, or Language.get_unrepresentable_characters regenerated from lib/ling.py, are no longer proved equal to the model of Model/Charset.lean (generated_*_eq_model and the '
+                              'theorems restated about them)')
+    problems = ' '.join(p for p in chk.lean.problems if not p.startswith('I18n.Props.C20Tie'))
+    driver_ok = os.path.exists(common.driver_path()) and not any('untranslatable' in s for k, s in chk.lean.translation.items() if k not in ('iconv', 'encodings', 'ling')) \
         and 'Driver' not in problems and 'I18n.Model' not in problems and 'I18n.Generated' not in problems
     E, I, L = C.mods()
     if C.IMPORT_ERROR:
@@ -36,7 +41,7 @@ def main():
     names = [n for n in corpus_names if n not in set(names)] + names
     fam = C.build_streams(chk, names, sizes)
     if driver_ok:
-        dis = C.run_streams(chk, fam)
+        dis = C.run_streams(chk, fam, generated_ok=tie_ok)
     else:
         dis = {}
         chk.broken.append({'kind': 'correspondence', 'stream': 'charset-*', 'problem': 'driver could not be rebuilt from the regenerated model'})
@@ -91,6 +96,14 @@ def main():
                  'offending sequence is left unconsumed) is ASSUMED by the loop theorems, and the end-to-end theorems use a reference iconv '
                  '(Spec/CharsetIconv.lean: unit by unit, room checked first); both observed, not proved, on every call of the run',
                  'CPython codecs.lookup: modelled (C normalisation, encodings.search_function) and tied on the table and by the registry stream',
+                 'tools/translate/iconv2lean.py + tools/translate/pytr (the translated subset of lib/iconv.py) and the kit Model/CharsetPy.lean: what each '
+                 'ctypes operation is taken to be (c_size_t cells below 2^64, sizeof(wchar_t) = 4, pointers as the buffer they were made from, the reset '
+                 'call selecting the round by the out-count of its iteration, errno as ghost state, a charset name is ASCII, no lone surrogates)',
+                 'tools/translate/encodings2lean.py + tools/translate/pytr (the translated subset of lib/encodings.py) and the kit Model/EncodingsPy.lean '
+                 '(str.lower/upper on ASCII letters, the module tables / codec registry / bytes.decode outcomes / charmap files as parameters, the CPython '
+                 'exception hierarchy, charmap_build = encLookup)',
+                 'tools/translate/ling2lean.py and the kit Model/LingPy.lean (a Language object is its three codes; _get_characters and str.encode are parameters; '
+                 'UnicodeError catches UnicodeEncodeError; the reason test of the iconv(1) fall-back)',
                  'the correspondence harness (tools/checks/charset_common.py, Driver/Charset.lean)'],
         explanation=EXPLANATION)
 
@@ -112,6 +125,23 @@ EXPLANATION = (
     'euctw_roundtrip_refuted, euctw_decode_error_position. iconv binding, every iconv behaviour: iconv_told_le_allocated, '
     'iconv_loop_schedule; under the assumed POSIX contract: iconv_loop_terminates, iconv_loop_rounds_log, iconv_loop_buffer_bound, '
     'iconv_loop_returns_produced, iconv_loop_error_span (+ the encode versions); non_doubling_loop_diverges; iconv_wchar_out_of_range. '
+    'TIE BY TRANSLATION (Props/C20Tie.lean): lib/iconv.py _decode_dl / _encode_dl / decode / encode are regenerated from the current source on every '
+    'run (tools/translate/iconv2lean.py -> Generated/IconvDl.lean over the kit Model/CharsetPy.lean) and proved equal to decodeLoop / encodeLoop / decodeDl / '
+    'encodeDl for all inputs, all iconv behaviours incl. failing iconv_open / iconv_close, all fuel, every world: generated_decode_loop_eq_model, '
+    'generated_encode_loop_eq_model, generated_decode_dl_eq_model, generated_encode_dl_eq_model, generated_decode_eq_model, generated_encode_eq_model, '
+    'generated_errors_not_strict; restated about the regenerated binding: iconv_told_le_allocated_generated (+_any), iconv_loop_schedule_generated, '
+    'iconv_loop_terminates_generated, iconv_encode_loop_terminates_generated, iconv_loop_returns_produced_generated, '
+    'iconv_encode_loop_returns_produced_generated, iconv_loop_error_span_generated (coverage.tie; twin streams charset-loop-*-generated). '
+    'Likewise lib/encodings.py (tools/translate/encodings2lean.py -> Generated/EncodingsFn.lean over the kit Model/EncodingsPy.lean): the constants '
+    '_interesting_ascii_bytes / _interesting_ascii_str evaluated from their defining expressions, is_portable_encoding, propose_portable_encoding, '
+    'is_ascii_compatible_encoding, decode, charmap_encoding, iconv_encoding, _codec_search_function, for all names / tables / registries / decode outcomes / '
+    'file sets: generated_interesting_ascii_eq_model, generated_is_portable_encoding_eq_model, generated_propose_portable_encoding_eq_model, '
+    'generated_is_ascii_compatible_encoding_eq_model, generated_encodings_decode_eq_model, generated_charmap_encoding_eq_model, '
+    'generated_codec_search_function_eq_model; restated: ascii_verdict_bytewise_generated, ascii_unknown_generated, proposal_portable_generated, '
+    'proposal_sound_generated, loader_decode_total_generated, codec_search_extra_generated (twin streams charset-names-generated, charset-loader-generated). '
+    'Likewise lib/ling.py Language._simple_format and Language.get_unrepresentable_characters (tools/translate/ling2lean.py -> Generated/LingFn.lean over the kit '
+    'Model/LingPy.lean; _get_characters and str.encode are parameters): generated_simple_format_eq_model, generated_get_unrepresentable_characters_eq_model, '
+    'unrepresentable_iff_generated (twin stream charset-characters-generated). '
     'End to end (the loop composed with a reference iconv for the charset): euctw_codec_decode, euctw_codec_encode, euctw_codec_roundtrip, '
     'koi8t_codec. loader_decode_total. unrepresentable_iff, check_unrepresentable_iff, check_classification, check_total, '
     'extra_codecs_encode_ok (EncodeOk is a theorem for the charmap codecs and EUC-TW). '
